@@ -75,7 +75,7 @@ def excluded(case):
 
 # ---- the command-line entry point for the safe-mode properties (C03, C06, C13): rimupy --safe-mode N with trusted inputs
 # (prepend file, prepend text, ~/.rimurc, macro shortcut options) in front of an untrusted source holding unbalanced raw HTML
-CLI_PIDS = ('C03', 'C06', 'C13')
+CLI_PIDS = ('C03', 'C06', 'C13', 'C15', 'C16', 'C19')
 CLI_DOCS = ['text <u>lone and *em*\n\n<section>\nblock', 'a <s>b</s> & <q>c\n\n- item <u>x']
 CLI_UNTRUSTED_TAGS = ['<u>', '<section>', '<s>', '<q>']
 
@@ -100,6 +100,44 @@ def cli_entry_cases():
                         out.append({'kind': 'M', 'argv': argv + ['in.rmu'], 'stdin': '', 'files': files, 'rimurc': rc})
                     else:
                         out.append({'kind': 'M', 'argv': argv, 'stdin': doc, 'files': files, 'rimurc': rc})
+    return out
+
+
+def cli_cases_for(pid):
+    """runs of the rimupy command for the properties that a change to the command itself can break"""
+    if pid in ('C03', 'C06', 'C13'):
+        return cli_entry_cases()
+    out = []
+    if pid == 'C15':
+        docs = ['# Title\n\n# Title\n\n## TITLE', '# A b\n\n.#a-b\npara\n\n# A b', '# \u00c9t\u00e9 X\n\n# \u00e9t\u00e9 x\n\n# x-2\n\n# X',
+                '.#One\npara\n\n# one\n\n- item\n\n# One', '# !?\n\n# ...\n\n# x']
+        for d in docs:
+            for pre in ([], ['--safe-mode', '1'], ['--prepend', '# Title'], ['--title', 'T']):
+                out.append({'kind': 'M', 'argv': ['--header-ids'] + pre, 'stdin': d, 'files': [], 'rimurc': None})
+                out.append({'kind': 'M', 'argv': pre + ['--header-ids', 'a.rmu', 'b.rmu'], 'stdin': '', 'files': [['a.rmu', d], ['b.rmu', d]], 'rimurc': None})
+    elif pid == 'C16':
+        base = ['para *em* `c`\n\n- item\n- item2\n\n``\ncode <x>\n``\n\n# H', 'a \x00b\x01 c\x02d <b>t</b> &amp; [l](u)\n\n<!-- c -->',
+                "{m}='v \x00'\n\n{m} and `q \x01` <http://u.v|\x02w>"]
+        for d in base:
+            for nl in ('\n', '\r\n', '\r'):
+                src = d.replace('\n', nl)
+                for pre in ([], ['--prepend', 'pre \x00\x01\x02 *x*'], ['--safe-mode', '2', '--html-replacement', 'R']):
+                    out.append({'kind': 'M', 'argv': list(pre), 'stdin': src, 'files': [], 'rimurc': None})
+                    out.append({'kind': 'M', 'argv': pre + ['in.rmu'], 'stdin': '', 'files': [['in.rmu', src]], 'rimurc': "{rc}='\x01'" if pre else None})
+    elif pid == 'C19':
+        good = ['para *em*\n\n- item\n\n``\ncode\n``', "{m}='v'\n\n{m} text\n\n/*\nc\n*/", '..\ndiv\n..\n\n\"\"\nq\n\"\"']
+        bad = [('{undefined-x}', 'undefined-x'), ('``\nopen code', 'code'), ('/*\nopen comment', 'comment'), ('..\nopen div', 'division'),
+               ('\"\"\nopen q', 'quote'), (".bogusopt='x'", 'bogusopt'), ('.+bogus\npara', 'bogus'), ("|nosuch|='<a>|</a>'", 'nosuch')]
+        for d in good:
+            for pre in ([], ['--safe-mode', '1'], ['--prepend', "{pt}='x'"]):
+                if '--safe-mode' in pre and "='" in d:
+                    continue    # definitions are skipped in that mode: the invocation is then rightly reported
+                out.append({'kind': 'M', 'argv': list(pre), 'stdin': d, 'files': [], 'rimurc': None, 'expect_diag': None})
+        for d, name in bad:
+            for pre in ([], ['--prepend', "{pt}='x'"], ['--title', 'T']):
+                out.append({'kind': 'M', 'argv': list(pre), 'stdin': 'ok\n\n' + d, 'files': [], 'rimurc': None, 'expect_diag': name})
+                out.append({'kind': 'M', 'argv': pre + ['good.rmu', 'bad.rmu'], 'stdin': '', 'files': [['good.rmu', good[0]], ['bad.rmu', d]],
+                            'rimurc': None, 'expect_diag': name})
     return out
 
 
@@ -171,7 +209,7 @@ class Spec:
                 out['samples'].append({'stream': name, 'case': strip_case(cases[len(cases) // 2])})
         self.engine_streams(ctx, out)
         if ctx.pid in CLI_PIDS:
-            cases = cli_entry_cases()
+            cases = cli_cases_for(ctx.pid)
             mo = model_run([common.cli_line(c) for c in cases], timeout=120)
             io_ = impl_run(cases, timeout=self.timeout)
             nd = 0
@@ -277,7 +315,7 @@ class Spec:
     def search(self, ctx, extra_cases, boost):
         cases = list(extra_cases) + list(self.search_cases(ctx, boost)) + (gen.abort_histories() if ctx.pid in ABORT_PIDS else [])
         if ctx.pid in CLI_PIDS:
-            cases += cli_entry_cases()
+            cases += cli_cases_for(ctx.pid)
         fails, nt, n = self.run_oracle(ctx, cases)
         out = {'cases': n, 'failures': fails, 'distinct_nontrivial': nt, 'samples': [], 'distribution': {}}
         if cases:
@@ -1161,6 +1199,21 @@ class C15(Spec):
         rng = ctx.rng('S')
         return [self._case(rng) for _ in range(sizes(ctx, 1000, 40000) * (3 if boost else 1))]
 
+    def cli_oracle(self, ctx, case, res):
+        # rimupy --header-ids: ids in the output are lower-case, and pairwise distinct unless a duplicate was reported
+        out = res.get('stdout')
+        if not isinstance(out, str):
+            return None
+        ids = re.findall(r'<[a-zA-Z][^<>]*?\sid="([^"]*)"', out)
+        for i in ids:
+            if i != i.lower():
+                return ('C15/cli-not-lower', 'rimupy %s: id %r is not lower-case' % (' '.join(case['argv'][:4]), i))
+        dup = sorted({i for i in ids if ids.count(i) > 1})
+        reported = any('duplicate' in l for l in res.get('stderr') or [])
+        if dup and not reported:
+            return ('C15/cli-duplicate-unreported', 'rimupy %s: ids %r repeated with no duplicate diagnostic: %r' % (' '.join(case['argv'][:4]), dup, out[:200]))
+        return None
+
     def oracle(self, ctx, case, impl, variants=()):
         if not all_ok(impl):
             return None
@@ -1250,6 +1303,16 @@ class C16(Spec):
     def search_cases(self, ctx, boost):
         rng = ctx.rng('S')
         return [self._case(rng) for _ in range(sizes(ctx, 800, 30000) * (3 if boost else 1))]
+
+    def cli_oracle(self, ctx, case, res):
+        # rimupy: no reserved control character of any input reaches the output
+        out = res.get('stdout')
+        if not isinstance(out, str) or ('--html-replacement' in case['argv'] and re.search('[\x00-\x02]', ' '.join(case['argv']))):
+            return None
+        m = re.search('[\x00\x01\x02]', out)
+        if m:
+            return ('C16/cli-reserved-in-output', 'rimupy %r: U+%04X in the output: %r' % (case['argv'][:4], ord(m.group(0)), out[max(0, m.start() - 40):m.start() + 40]))
+        return None
 
     def oracle(self, ctx, case, impl, variants=()):
         if len(variants) < 3 or not all_ok(impl) or not all(all_ok(v) for v in variants):
@@ -1858,6 +1921,18 @@ class C19(Spec):
     def search_cases(self, ctx, boost):
         rng = ctx.rng('S')
         return [self.gen_case(rng) for _ in range(sizes(ctx, 1200, 40000) * (3 if boost else 1))]
+
+    def cli_oracle(self, ctx, case, res):
+        # rimupy: a well-formed input gives no diagnostic; a faulty one gives a diagnostic that names the fault
+        if 'expect_diag' not in case or not isinstance(res.get('stdout'), str):
+            return None
+        err = res.get('stderr') or []
+        name = case['expect_diag']
+        if name is None and err:
+            return ('C19/cli-spurious', 'rimupy %r on a well-formed input: %r' % (case['argv'][:4], err[:2]))
+        if name is not None and not any(name in l for l in err):
+            return ('C19/cli-missing', 'rimupy %r: no diagnostic names %r: %r' % (case['argv'][:4], name, err[:2]))
+        return None
 
     def oracle(self, ctx, case, impl, variants=()):
         if impl.get('timeout') or 'calls' not in impl:
